@@ -47,6 +47,18 @@ fn scripted(req: Request, log: &Mutex<Vec<String>>) -> Response {
         }
     } else if let Some(m) = path.strip_prefix("/gg") {
         Response::get_body_and_reprocess(num(m))
+    } else if let Some(m) = path.strip_prefix("/gv") {
+        // like /g, but the handler takes the received body through the conversion impl (Vec::<u8>::try_from,
+        // which String::try_from uses too) instead of a reader: the same bytes
+        if req.body.is_pending() {
+            Response::get_body_and_reprocess(num(m))
+        } else {
+            match Vec::<u8>::try_from(req.body) {
+                Ok(data) if (v == "E" && data.is_empty()) || (v.len() > 1 && v[1..] == digest_tok(&data)) => Response::text(200, v),
+                Ok(data) => Response::text(500, format!("conversion gives {} bytes: not what the reader gave", data.len())),
+                Err(e) => Response::text(500, format!("conversion failed: {:?}", e.kind())),
+            }
+        }
     } else if let Some(m) = path.strip_prefix("/g5") {
         // fetch the body, then answer 500
         if req.body.is_pending() {
